@@ -482,7 +482,7 @@ func c18Porcupine(r *hx.Run, cw *c18World, ps *plans, rnd *rand.Rand, n int) {
 
 func c18(r *hx.Run) {
 	r.MaxViol = 6 // violations here usually cost a watchdog period each
-	r.Rule = "three caches (one without store, two with scripted in-memory stores) behind three servers sharing the client-supplied Host; purges through the real admin DELETE /cache; keys with percent escapes, plus signs and of more than 512 bytes; store writes that stall for 2.3 s and then land. basics: fetch+hit on every cache, one purge variant {named, unnamed, absent cache, absent key, named twice}, store records inspected, next request per cache and for a neighbour key judged by the entry model; slow store: a lookup issued while the purge is between LRU removal and the end of a slow store delete, and a purge right after a fill whose store write is slow (afterwards the key must not be answered from the purged version and the record must be gone); directed: purge while the fetch is held at the origin with 1-5 parked waiters (must return before the release, nobody stranded); porcupine: 6 clients + 2 purgers + clock advancer, per (cache,key) linearizability. Non-trivial = case with a purge of a present key; distinct = variant/partition."
+	r.Rule = "three caches (one without store, two with scripted in-memory stores) behind three servers sharing the client-supplied Host; purges through the real admin DELETE /cache; keys with percent escapes, plus signs and of more than 512 bytes; store writes that stall for 2.3 s and then land. basics: fetch+hit on every cache, one purge variant {named, unnamed, absent cache, absent key, named twice} (in a quarter of the cases every store delete takes 25 ms), store records inspected, next request per cache and for a neighbour key judged by the entry model; slow store: a lookup issued while the purge is between LRU removal and the end of a slow store delete, and a purge right after a fill whose store write is slow (afterwards the key must not be answered from the purged version and the record must be gone); directed: purge while the fetch is held at the origin with 1-5 parked waiters (must return before the release, nobody stranded); porcupine: 6 clients + 2 purgers + clock advancer, per (cache,key) linearizability. Non-trivial = case with a purge of a present key; distinct = variant/partition."
 	r.Assume = []string{"virtual clock, hook points", "the in-memory store stands for the persistent store (badger itself in C08)", "-race build"}
 	rnd := rand.New(rand.NewSource(r.Seed))
 	cw := newC18World(r)
